@@ -31,7 +31,8 @@ RULE = ("api/axes: cases = (buffer shape, pytree spec, batch_size, key, batch_ax
         "tag/eager: cases = (num_envs, num_steps, num_batches, num_epochs, pytree spec, normalise, key) fed to "
         "the real PPO.train / train_epoch with a tagging stub policy and a recording optimiser; non-trivial = "
         "N >= 2 and (at least two minibatches or a non-empty remainder N % B), i.e. partitioning or trimming "
-        "matters; distinct by the full case description (shape, spec, B, epochs, key index, mode)")
+        "matters (axes units: N >= 2 and the flatten is over several axes or over a non-leading axis); "
+        "distinct by the full case description (shape, spec, B, epochs, key index, mode)")
 FLOOR = {"quick": 150, "thorough": 1500}
 ASSUMPTIONS = [
     "NumPy decode of id-encoded leaves (value = id * Q + position, mask = bits of id) is the oracle; ids and "
@@ -57,10 +58,10 @@ N_AXES = {"quick": 3, "thorough": 4}
 
 
 def units(tier):
-    u = [{"name": f"api{i}", "timeout": 1500} for i in range(N_API[tier])]
-    u += [{"name": f"axes{i}", "timeout": 1500} for i in range(N_AXES[tier])]
-    u += [{"name": f"tag{i}", "timeout": 1700} for i in range(N_TAG[tier])]
-    u += [{"name": f"eager{i}", "timeout": 1700} for i in range(N_EAGER[tier])]
+    u = [{"name": f"api{i}", "timeout": 2400} for i in range(N_API[tier])]
+    u += [{"name": f"axes{i}", "timeout": 2400} for i in range(N_AXES[tier])]
+    u += [{"name": f"tag{i}", "timeout": 2400} for i in range(N_TAG[tier])]
+    u += [{"name": f"eager{i}", "timeout": 2400} for i in range(N_EAGER[tier])]
     return u
 
 
@@ -684,8 +685,6 @@ def _tail_verdict(ctx, agg):
         if agg["drop_tail"] == agg["drop_total"]:
             ctx.violation("dropped-samples-always-the-tail", {"epochs_observed": agg["drop_total"],
                                                               "log10_chance_under_uniform_shuffle": -agg["drop_lg"]})
-        elif agg["drop_tail"] > 3 and agg["drop_tail"] > 0.5 * agg["drop_total"] and agg["drop_tail_lg"] > 12:
-            ctx.violation("dropped-samples-mostly-the-tail", dict(agg))
 
 
 def _tag_configs(ctx, shard, nshards):
@@ -784,6 +783,9 @@ def u_tag(ctx, shard, nshards):
     ctx.require("rows_field_checked", 50)
     ctx.require("sgd_tag_decodes", 5)
     ctx.require("epochs_checked", 10)
+    ctx.require("multi_epoch_runs_with_remainder_judged", 2)
+    ctx.require("runs_where_dropped_set_differs_between_epochs", 1)
+    ctx.require("epoch_freshness_judged", 2)
     if not ctx.quick:
         ctx.require("epoch_freshness_judged", 5)
         ctx.require("epoch_dropped_set_judged", 2)
